@@ -222,6 +222,10 @@ def getattr(I, st, v, name):
             else:
                 yield st, BoundMethod(m, v)
             return
+        if m is not None and not isinstance(m, FuncVal) and M.is_enum_class(I, v.cls):
+            # another member reached through a member (self.FULL_CORE inside an Enum method; Python >= 3.12 / <= 3.10)
+            yield st, enum_member(I, st, v.cls, name)
+            return
     if isinstance(v, str):
         yield st, str_method(I, st, v, name)
         return
@@ -877,7 +881,21 @@ def call_builtin_class(I, st, c, args, kwargs):
         elif isinstance(v, Fraction):
             yield st, repr(float(v))
         else:
-            yield st, Opaque("str()")
+            # str(x) = type(x).__str__(x) when the class (of an object or an enum member) defines __str__
+            vcls = None
+            if isinstance(v, Ref) and st.get(v).kind == "obj" and isinstance(st.get(v).cls, ClassVal):
+                vcls = st.get(v).cls
+            elif isinstance(v, M.EnumMember) and isinstance(v.cls, ClassVal):
+                vcls = v.cls
+            m = I.class_lookup(vcls, "__str__")[0] if vcls is not None else None
+            if isinstance(m, FuncVal):
+                for st1, r in I.call(m, [v], {}, st):
+                    if not isinstance(r, Exc) and not isinstance(r, (str, Opaque)):
+                        yield st1, exc("TypeError", "__str__ returned non-string")
+                    else:
+                        yield st1, r
+            else:
+                yield st, Opaque("str()")
     elif n == "tuple":
         yield st, tuple(I.iterate(args[0], st)) if args else ()
     elif n == "list":
